@@ -101,7 +101,7 @@ pub fn gen_spec(ch: &mut Ch) -> WorldSpec {
                             a.kind = TKind::Upload { body_id: ch.below(1 << 40, "t.ab.body"), len: (plen + 1) * psize, szx: pszx, dups: vec![], abandon_after: Some(plen as u32), adapt: false };
                             transfers.push(a);
                         }
-                        t.kind = TKind::Upload { body_id: ch.below(1 << 40, "t.up.body"), len, szx, dups, abandon_after: None, adapt: ch.chance(1, 2, "t.up.adapt") };
+                        t.kind = TKind::Upload { body_id: ch.below(1 << 40, "t.up.body") | if ch.chance(1, 2, "t.up.patterned") { BODY_PATTERNED } else { 0 }, len, szx, dups, abandon_after: None, adapt: ch.chance(1, 2, "t.up.adapt") };
                         if focus.is_none() || ch.chance(1, 3, "focus") {
                             let ro = request_overhead(&t, Some((200, true, szx)), None);
                             focus = Some((ro + size.saturating_sub(16), response_overhead(token_len, &res.opts, true)));
@@ -117,7 +117,7 @@ pub fn gen_spec(ch: &mut Ch) -> WorldSpec {
             }
             lanes.push(LaneSpec { transfers, timeout_ms: 2000 + ch.below(1001, "lane.timeout") });
         }
-        clients.push(ClientSpec { ep: 100 + ci as Ep, lanes, mid0: ch.below(65536, "c.mid0") as u16, tok_seed: ch.below(1 << 48, "c.tok"), net: gen_net(ch, faults), via_proxy: false });
+        clients.push(ClientSpec { ep: 100 + ci as Ep, lanes, mid0: if ch.chance(1, 8, "c.mid0.wrap") { 65_500 + ch.below(36, "c.mid0") as u16 } else { ch.below(65536, "c.mid0") as u16 }, tok_seed: ch.below(1 << 48, "c.tok"), net: gen_net(ch, faults), via_proxy: false });
     }
     // noise clients on other keys
     if ch.chance(3, 10, "noise") {
